@@ -903,13 +903,11 @@ class SupportGenerator(CodeGenerator):
     # | AbstractGenerator
     # +-----------------------------------------------------------------------+
     def get_templates(self, omit_serialization_support: bool = False) -> typing.Iterable[pathlib.Path]:
-        files = []
-        if not omit_serialization_support:
-            for resource in self._get_templates_by_support_type(ResourceType.SERIALIZATION_SUPPORT):
-                files.append(resource)
-        for resource in self._get_templates_by_support_type(ResourceType.TYPE_SUPPORT):
-            files.append(resource)
-        return files
+        """
+        The files this generator reads. For a template this is the file the loader opens: a template with the same
+        name in a support templates directory takes precedence over the one in the package.
+        """
+        return [self._template_source(resource) for resource in self._get_resources(omit_serialization_support)]
 
     def generate_all(
         self,
@@ -936,7 +934,7 @@ class SupportGenerator(CodeGenerator):
                     raise ValueError("PostProcessor type {} is unknown.".format(type(pp)))
 
         generated = []  # type: typing.List[pathlib.Path]
-        for resource in self.get_templates(omit_serialization_support):
+        for resource in self._get_resources(omit_serialization_support):
             target = (target_path / resource.name).with_suffix(target_language.extension)
             logger.info("Generating support file: %s", target)
             if resource.suffix == TEMPLATE_SUFFIX:
@@ -950,6 +948,22 @@ class SupportGenerator(CodeGenerator):
     # +-----------------------------------------------------------------------+
     # | Private
     # +-----------------------------------------------------------------------+
+    def _get_resources(self, omit_serialization_support: bool) -> typing.List[pathlib.Path]:
+        files = []
+        if not omit_serialization_support:
+            for resource in self._get_templates_by_support_type(ResourceType.SERIALIZATION_SUPPORT):
+                files.append(resource)
+        for resource in self._get_templates_by_support_type(ResourceType.TYPE_SUPPORT):
+            files.append(resource)
+        return files
+
+    def _template_source(self, resource: pathlib.Path) -> pathlib.Path:
+        if resource.suffix == TEMPLATE_SUFFIX:
+            _, filename, _ = self.dsdl_loader.get_source(self._env, resource.name)
+            if filename is not None:
+                return pathlib.Path(filename)
+        return resource
+
     def _get_templates_by_support_type(self, resource_type: ResourceType) -> typing.Iterable[pathlib.Path]:
         files = []
         target_language = self.language_context.get_target_language()
